@@ -164,8 +164,8 @@ PROPS["C07"] = {
         "MsiProofs.C07.intercalate_splitOn", "MsiProofs.C07.splitOn_intercalate", "MsiProofs.C07.splitOn_no_sep",
         "MsiProofs.C07.version_iff", "MsiProofs.C07.language_iff", "MsiProofs.C07.identifier_iff",
         "MsiProofs.C07.property_iff", "MsiProofs.C07.case_iff", "MsiProofs.C07.cabinet_hash",
-        "MsiProofs.C07.validate_total", "MsiProofs.C07.unchecked_accept", "MsiProofs.C07.isValidValue_spec", "MsiProofs.C07.integer_iff", "MsiProofs.C07.cabinet_file"],
-    "level_text": "Also Integer / DoubleInteger = the text of a 16- / 32-bit integer (one optional sign, digits, value in range: integer_iff) and the file-name form of Cabinet (1-8 characters before the last period, extension of at most 3, counted in characters: cabinet_file). Lean theorems, for every string / every (column, value): Category::validate is equivalent to the declarative grammar for "
+        "MsiProofs.C07.validate_total", "MsiProofs.C07.unchecked_accept", "MsiProofs.C07.isValidValue_spec", "MsiProofs.C07.integer_iff", "MsiProofs.C07.cabinet_file", "MsiProofs.C07.guid_iff", "MsiProofs.C07.hex_size"],
+    "level_text": "GUID (guid_iff): validate accepts exactly the braced hyphenated 8-4-4-4-12 form in hex digits none of which is a lower-case letter (38 bytes because every such character is one byte: hex_size); what Uuid::parse_str accepts on a 36-byte input is modelled (uuidHyphenated) and tied by bounded-exhaustive strings. Also Integer / DoubleInteger = the text of a 16- / 32-bit integer (one optional sign, digits, value in range: integer_iff) and the file-name form of Cabinet (1-8 characters before the last period, extension of at most 3, counted in characters: cabinet_file). Lean theorems, for every string / every (column, value): Category::validate is equivalent to the declarative grammar for "
                   "Version, Language (split/join inverse lemmas), Identifier, Property, UpperCase/LowerCase; validators total; "
                   "Column::is_valid_value equals the documented rule (nullability, storable and declared ranges with the most negative value "
                   "reserved, width in characters, enumeration, category); category spellings round-trip (decide on regenerated tables); "
